@@ -112,7 +112,7 @@ def aggregate(results):
 def run_replay(path):
     py = sys.executable
     env = dict(os.environ)
-    env["PYTHONPATH"] = HERE + os.pathsep + env.get("PYTHONPATH", "")
+    env["PYTHONPATH"] = os.pathsep.join([HERE] + ([os.environ["PYVC_REPO"]] if os.environ.get("PYVC_REPO") else []) + [env.get("PYTHONPATH", "")])
     r = subprocess.run([py, "-m", "pyvc.replay", path], capture_output=True, text=True, cwd=HERE, env=env, timeout=600)
     try:
         out = json.loads(r.stdout.strip().splitlines()[-1])
